@@ -36,6 +36,9 @@ type Script struct {
 	// Earlier: requests served by the SAME wrapped handler before the judged one (each entry is that
 	// request's Authorization header values; an empty entry is a request without the header).
 	Earlier [][]string `json:"earlier,omitempty"`
+	// VerifyNS: how long the verifier takes (virtual time). The token must be unexpired when the
+	// decision is taken, that is after the verifier has answered.
+	VerifyNS int64 `json:"verify_ns,omitempty"`
 }
 
 var scopeAlpha = []string{"a", "b", "c", "read", "write:x", "A"}
@@ -85,17 +88,19 @@ func genScript(rt *rapid.T) Script {
 		s.Granted = append(append([]string{}, s.Required...), rapid.SliceOfN(rapid.SampledFrom(scopeAlpha), 0, 3).Draw(rt, "extra")...)
 	}
 	s.SkewNS = rapid.SampledFrom([]int64{0, 0, 1, 2, int64(30 * time.Second), int64(time.Hour)}).Draw(rt, "skew")
+	s.VerifyNS = rapid.SampledFrom([]int64{0, 0, 0, 1, 2, int64(time.Second), int64(30 * time.Second)}).Draw(rt, "verify_ns")
 	if rapid.IntRange(0, 5).Draw(rt, "expzero") == 0 {
 		s.ExpKind = "zero"
 	} else {
 		s.ExpKind = "rel"
-		base := rapid.SampledFrom([]int64{0, -s.SkewNS, s.SkewNS, -int64(time.Hour), int64(time.Hour), -int64(365 * 24 * time.Hour)}).Draw(rt, "expbase")
+		base := rapid.SampledFrom([]int64{0, -s.SkewNS, s.SkewNS, -int64(time.Hour), int64(time.Hour), -int64(365 * 24 * time.Hour), s.VerifyNS - s.SkewNS, s.VerifyNS - s.SkewNS, s.VerifyNS}).Draw(rt, "expbase")
 		s.ExpRelNS = base + rapid.SampledFrom([]int64{-2, -1, 0, 1, 2}).Draw(rt, "expdelta")
 	}
 	s.StripMono = rapid.Bool().Draw(rt, "strip")
 	s.AllowMiss = rapid.Bool().Draw(rt, "allow")
 	s.MetaURL = rapid.SampledFrom([]string{"", "https://rs.example/.well-known/oauth-protected-resource", "https://x/y?z=1"}).Draw(rt, "meta")
 	s.InnerCode = rapid.SampledFrom([]int{200, 204, 404}).Draw(rt, "inner")
+
 	for i, n := 0, rapid.SampledFrom([]int{0, 0, 1, 2, 4}).Draw(rt, "earlier"); i < n; i++ {
 		switch rapid.IntRange(0, 2).Draw(rt, "ekind") {
 		case 0:
@@ -184,11 +189,15 @@ func runCase(s Script) (res vt.Result) {
 	}
 	info := &auth.TokenInfo{Scopes: s.Granted, Expiration: exp, UserID: "u"}
 	verifierCalls := 0
+	judged := false // earlier requests are verified instantly; only the judged one meets the slow verifier
 	var gotToken string
 	errOther := errors.New("backend down")
 	verifier := func(ctx context.Context, token string, req *http.Request) (*auth.TokenInfo, error) {
 		verifierCalls++
 		gotToken = token
+		if judged && s.VerifyNS > 0 {
+			time.Sleep(time.Duration(s.VerifyNS))
+		}
 		switch s.Verifier {
 		case "ok":
 			return info, nil
@@ -224,6 +233,7 @@ func runCase(s Script) (res vt.Result) {
 		h.ServeHTTP(httptest.NewRecorder(), ereq)
 	}
 	verifierCalls, gotToken, innerRuns, innerInfo = 0, "", 0, nil
+	judged = true
 	if len(s.Earlier) > 0 {
 		res.Class("handler_served_earlier_requests")
 	}
@@ -246,6 +256,10 @@ func runCase(s Script) (res vt.Result) {
 		hdr = s.Headers[0]
 	}
 	tok, validHeader := refParse(hdr)
+	verifyNS := int64(0)
+	if validHeader {
+		verifyNS = s.VerifyNS // the verifier only runs (and takes its time) for a well-formed credential
+	}
 	verifierOK := s.Verifier == "ok"
 	scopesOK := true
 	for _, r := range required {
@@ -257,8 +271,9 @@ func runCase(s Script) (res vt.Result) {
 	if s.ExpKind == "zero" {
 		expiryOK = allow
 	} else {
-		// unexpired within skew  <=>  exp + skew >= now  <=>  rel + skew >= 0
-		expiryOK = s.ExpRelNS+int64(skew) >= 0
+		// unexpired within skew at the moment of the decision (after the verifier took VerifyNS):
+		// exp + skew >= now + verify  <=>  rel + skew - verify >= 0
+		expiryOK = s.ExpRelNS+int64(skew)-verifyNS >= 0
 	}
 	admit := validHeader && verifierOK && scopesOK && expiryOK
 
@@ -274,7 +289,7 @@ func runCase(s Script) (res vt.Result) {
 			falseConj++
 		}
 	}
-	nearBoundary := s.ExpKind == "rel" && abs64(s.ExpRelNS+int64(skew)) <= 2
+	nearBoundary := s.ExpKind == "rel" && abs64(s.ExpRelNS+int64(skew)-verifyNS) <= 2
 	res.NonTrivial = falseConj == 1 || nearBoundary
 	res.Desc = fmt.Sprintf("%q|%s|%v|%v|%v|%v|%s|%d|%d|%v|%v", s.Headers, s.Verifier, s.NilOpts, s.Required, s.Granted, scopesOK, s.ExpKind, s.ExpRelNS+int64(skew), s.SkewNS, s.AllowMiss, s.MetaURL != "") + fmt.Sprintf("|e%d", len(s.Earlier))
 	if admit {
